@@ -120,7 +120,10 @@ def container (c impl : Json) : P Json := do
   let vb ← intF impl "v_before"; let again ← intF impl "v_again"; let twin ← intF impl "v_twin"
   let va ← intF impl "v_after"; let rebuilt ← intF impl "v_rebuilt"
   let mB := FP.fpElems es; let mA := FP.fpElems es'
-  if vb != mB || va != mA then
+  -- the order in which a set's items are hashed is the implementation's choice (the property only asks that it does not depend on
+  -- how the set was built): cases holding a set of two or more items are not compared with the model's value
+  let exact := (fieldD c "exact" (Json.bool true)) == Json.bool true
+  if exact && (vb != mB || va != mA) then
     return verdict false s!"fingerprints ({vb}, {va}) differ from the rolling hash of the (nested) contents ({mB}, {mA})"
   if again != vb then
     return verdict false s!"a second fingerprint() call returned {again} after {vb} with nothing written in between"
